@@ -300,6 +300,21 @@ def _k4(ctx: Context, ss, ser, des) -> None:
                 d_order = ctx.const(d_f, x.args[1], None)
         ck.check("C16.K4", ok_s and d_order == order_, f"{tname}: {width} bytes {order_}-endian in both directions", f"{M}:scalar:{tname}",
                  f"{tname}: serialiser packs {fmt!r}, deserialiser reads {d_order!r}-endian; expected {width} bytes {order_}-endian", s_f.loc())
+    # every scalar deserialiser is the plain conversion and nothing else: one return, int.from_bytes(<the value>, order)
+    for tname, order_ in (("u8", "little"), ("u16", "little"), ("u32", "little"), ("u64", "little"), ("u128", "little"), ("bu16", "big")):
+        dfn = des.get(f"{M}.{tname}")
+        if dfn not in ctx.prog.functions:
+            continue
+        d_f = ctx.func(dfn)
+        dcfg = ctx.cfg(dfn)
+        rets = [n for n in dcfg.nodes if n.kind == "return" and n.exprs]
+        vp = d_f.pos_params[1] if len(d_f.pos_params) > 1 else None
+        want = ("call", ("attr", ("glob", "int"), "from_bytes"), (("param", vp), ("const", order_)), ())
+        got = [strip_sites(T.of(dcfg, n, n.exprs[0])) for n in rets]
+        branches = [n for n in dcfg.nodes if n.kind in ("test", "for", "loop_head")]
+        ck.check("C16.K4", got == [want] and not branches, f"{tname}: the deserialiser is exactly int.from_bytes(value, '{order_}')", f"{M}:scalar-deserialiser:{tname}",
+                 f"{d_f.name} returns {[show(g, 80) for g in got]}{' under conditions' if branches else ''}: the decoded value is not always the number that was encoded "
+                 "(decode(encode(m)) != m for the values the extra logic rewrites)", d_f.loc())
     # u128
     s_f = ctx.func(ser.get(f"{M}.u128", "")) if ser.get(f"{M}.u128") in ctx.prog.functions else None
     if s_f is not None:
